@@ -64,6 +64,9 @@ def combos(tier):
                     for pad in (512, 4096):
                         C.append(dict(base, pad=pad, sizes="1,300,16384,20000"))
                     C.append(dict(base, pad=1024, resume="ticket", sizes="5,17000"))
+                    if role == "client":
+                        # resumption by PSK alone (psk_ke): the OpenSSL server allows it and shares no group with the client the second time
+                        C.append(dict(base, resume="ticket", pskke=1, sizes="5,300"))
                     if role == "server":
                         for en in (1, 100, 5000):
                             C.append(dict(base, resume="ticket", early=en, sizes="5,300"))
@@ -124,7 +127,7 @@ def run(tier, seed):
     known = runner.load_known(prop); known_hit = {}
     for ln in v["rejects"]:
         i, c = idx[ln]; d = json.loads(lines[ln - 1])
-        sig = {k: str(c.get(k, "")) for k in ("role", "ver", "oname", "key", "cauth", "resume", "group", "sigalgs", "pad", "early", "oname2", "maxfrag")}
+        sig = {k: str(c.get(k, "")) for k in ("role", "ver", "oname", "key", "cauth", "resume", "group", "sigalgs", "pad", "early", "oname2", "maxfrag", "pskke")}
         sig["obs"] = "done=%s odone=%s mres=%s ores=%s dataok=%s odataok=%s mver=%s ocipher=%s" % (d["done"], d["odone"], d["mres"], d["ores"], d["dataok"], d["odataok"], d["mver"], d["ocipher"]) + (" earlyok=%s oearly=%s" % (d.get("earlyok"), d.get("oearly")) if c.get("early") else "")
         k = runner.match_known(sig, known)
         if k:
